@@ -23,6 +23,9 @@ type Slot struct {
 	Set     func(p *spec.Packet, i int)
 	// NonDefaultProto marks protocol name/version slots (outside C02).
 	NonDefaultProto bool
+	// Extra marks API-settable fields that have no place on the wire
+	// (e.g. a topic alias on a will message); they are left out of Full().
+	Extra bool
 	// WellFormed reports whether value i keeps the packet inside MQTT's
 	// own rules (nil = always).
 	WellFormed func(i int) bool
@@ -254,6 +257,21 @@ func connectSchema() *Schema {
 		propStr("will.responsetopic", "will", 0x08, 'R'),
 		propStr("will.correlation", "will", 0x09, 'O'),
 		userSlot("will"),
+		// fields of the will *Publish that a CONNECT cannot carry: they must
+		// not leak onto the wire
+		{Name: "will.topicalias", Group: "will", N: 3, Primary: 1, Extra: true, Set: func(p *spec.Packet, i int) {
+			if p.Will != nil {
+				p.Will.Props = append(p.Will.Props, spec.Prop{ID: 0x23, N: []uint32{0, 7, 65535}[i]})
+			}
+		}},
+		{Name: "will.subids", Group: "will", N: 3, Primary: 1, Extra: true, Set: func(p *spec.Packet, i int) {
+			if p.Will != nil {
+				p.Will.Props = append(p.Will.Props, spec.Prop{ID: 0x0b, N: 5})
+				if i == 2 {
+					p.Will.Props = append(p.Will.Props, spec.Prop{ID: 0x0b, N: 268435455})
+				}
+			}
+		}},
 	}
 	return s
 }
@@ -458,7 +476,7 @@ func (s *Schema) Empty() Vec { return make(Vec, len(s.Slots)) }
 func (s *Schema) Full() Vec {
 	v := make(Vec, len(s.Slots))
 	for i, sl := range s.Slots {
-		if sl.NonDefaultProto {
+		if sl.NonDefaultProto || sl.Extra {
 			continue
 		}
 		v[i] = sl.Primary
@@ -606,4 +624,31 @@ func (s *Schema) SlotByName(name string) int {
 		}
 	}
 	panic("no slot " + name)
+}
+
+// WireView returns p without the API-only fields that have no place on the
+// wire (topic alias / subscription identifiers of a will message): what a
+// reader of the frame is expected to see.
+func WireView(p *spec.Packet) *spec.Packet {
+	if p.Will == nil {
+		return p
+	}
+	strip := false
+	for _, pr := range p.Will.Props {
+		if pr.ID == 0x23 || pr.ID == 0x0b {
+			strip = true
+		}
+	}
+	if !strip {
+		return p
+	}
+	q := p.Clone()
+	var keep []spec.Prop
+	for _, pr := range q.Will.Props {
+		if pr.ID != 0x23 && pr.ID != 0x0b {
+			keep = append(keep, pr)
+		}
+	}
+	q.Will.Props = keep
+	return q
 }
